@@ -265,6 +265,29 @@ theorem single_key_refine (hL : E.Local) (R : Routes) (fixed : Bool) (hv : R.Val
   | batchSet kvs =>
     obtain ⟨x1, x2, _⟩ := C03.shards_refine_single hL R fixed hv hN hc h (.batchSet kvs) rfl
     exact ⟨x1, x2, rfl⟩
+  | mget ks =>
+    -- one item of a generic MGET
+    obtain ⟨x1, x2, x3⟩ := C03.shards_refine_single hL R fixed hv hN hc h (.mget ks) rfl
+    refine ⟨x1, x2, ?_⟩
+    have : C03.replyEqv (.many (gatherN E R.N (R.gen fixed) st .mget ks))
+        (.many (ks.map (mgetSlot E (abs st)))) = true := x3
+    have e : gatherN E R.N (R.gen fixed) st .mget ks = ks.map (mgetSlot E (abs st)) := by
+      simpa [C03.replyEqv] using this
+    show Reply.many (gatherN E R.N (R.gen fixed) st .mget ks) = Reply.many (ks.map (mgetSlot E (abs st)))
+    rw [e]
+  | mset kvs =>
+    obtain ⟨x1, x2, _⟩ := C03.shards_refine_single hL R fixed hv hN hc h (.mset kvs) rfl
+    exact ⟨x1, x2, rfl⟩
+  | del ks =>
+    match ks, hs with
+    | [k], _ =>
+      obtain ⟨x1, x2, x3⟩ := C03.shards_refine_single hL R fixed hv hN hc h (.del [k]) rfl
+      refine ⟨x1, x2, ?_⟩
+      have e1 : execN E R fixed st (.del [k]) = routePrimary E R fixed st (.del [k]) := rfl
+      have e2 : (E.exec (abs st) (.del [k])).2 = Reply.one (.int (delKeys (abs st) [k]).2) := rfl
+      rw [e2] at x3 ⊢
+      cases hrep : (execN E R fixed st (.del [k])).2 <;> rw [hrep] at x3 <;>
+        simp [C03.replyEqv] at x3 <;> first | (rw [x3]) | (exact absurd x3 (by simp))
   | _ => simp [SingleKey] at hs
 
 /-- **linearizable w.r.t. ONE store**: clients drive the sharding layer (`execN`: the request goes
